@@ -72,8 +72,9 @@ func mkMember(i int, m Member, clock *atomic.Int64) *member {
 const tOrch = "TestOrchestrator"
 
 type orchCase struct {
-	Members []Member `json:"members"`
-	Procs   int      `json:"gomaxprocs"`
+	Members    []Member `json:"members"`
+	Concurrent bool     `json:"concurrent_first_adds,omitempty"` // the members added before Start are added by one goroutine each, all at once
+	Procs      int      `json:"gomaxprocs"`
 }
 
 func runOrch(c *orchCase) (string, string) {
@@ -111,10 +112,36 @@ func runOrch(c *orchCase) (string, string) {
 		accepted[i] = orc.Add(mm.svc) == nil
 		return "", ""
 	}
-	for i, m := range c.Members {
-		if m.When == "before" {
-			if k, why := add(i); why != "" {
-				return k, why
+	if c.Concurrent {
+		// the first Adds on the zero-value orchestrator arrive from
+		// several goroutines at once
+		var wg sync.WaitGroup
+		var firstKey, firstWhy atomic.Value
+		release := make(chan struct{})
+		for i, m := range c.Members {
+			if m.When == "before" {
+				wg.Add(1)
+				go func(i int) {
+					defer wg.Done()
+					<-release
+					if k, why := add(i); why != "" {
+						firstKey.Store(k)
+						firstWhy.Store(why)
+					}
+				}(i)
+			}
+		}
+		close(release)
+		wg.Wait()
+		if why, _ := firstWhy.Load().(string); why != "" {
+			return firstKey.Load().(string), why
+		}
+	} else {
+		for i, m := range c.Members {
+			if m.When == "before" {
+				if k, why := add(i); why != "" {
+					return k, why
+				}
 			}
 		}
 	}
@@ -230,12 +257,21 @@ func TestOrchestrator(t *testing.T) {
 			nonOK = nonOK || m.Outcome != "ok"
 			late = late || m.When == "after"
 		}
+		before := 0
+		for _, m := range c.Members {
+			if m.When == "before" {
+				before++
+			}
+		}
+		if before >= 2 {
+			c.Concurrent = rapid.IntRange(0, 2).Draw(t, "concurrentAdds") == 0
+		}
 		for i := 0; i < reps; i++ {
 			if k, why := runOrch(c); why != "" {
 				vkit.Fail(t, tOrch, "C11:orchestrator/"+k, *c, "%s (repetition %d)", why, i)
 			}
 		}
-		vkit.CaseN(tOrch, vkit.Hash(*c), reps, n >= 2 && (nonOK || late), []string{fmt.Sprintf("members:%d", n), fmt.Sprintf("late-add:%v", late)}, func() any { return *c })
+		vkit.CaseN(tOrch, vkit.Hash(*c), reps, n >= 2 && (nonOK || late), []string{fmt.Sprintf("members:%d", n), fmt.Sprintf("late-add:%v", late), fmt.Sprintf("concurrent-first-adds:%v", c.Concurrent)}, func() any { return *c })
 	})
 }
 
